@@ -202,3 +202,13 @@ reg("C15",
                      "np.load rejects every proper prefix / corrupted entry (observed exhaustively per entry in the thorough tier, not proved)"],
     assumptions=["the solver's footprint result depends only on the determining arguments (C04 footprint_indep_source_values + halo default = max(domain))",
                  "initial disk satisfies the invariant (every decodable entry was stored by this key scheme)"])
+
+
+reg("C13",
+    T("Proofs.C13", "BLDFM.C13", ["runSingle_is_pipeline", "runSingle_defined", "levels_explicit", "levels_full", "levels_default",
+                                  "meas_pt_is_tower_xy", "result_labels"])
+    + T("Proofs.C16", "BLDFM.C16", ["getStep_spec"])
+    + T("Proofs.Bridge.Tables", "BLDFM.Bridge", ['call_table_single_assign_else_config_domain_output_levels_else_config_domain_full_output', 'call_table_single_assign_else_config_domain_output_levels_if_config_domain_full_output', 'call_table_single_assign_if_config_domain_output_levels', 'call_table_single_assign_if_surface_flux_is_None', 'call_table_single_ideal_source_if_surface_flux_is_None', 'call_table_single_return', 'call_table_single_steady_state_transport_solver', 'call_table_single_vertical_profiles_else_config_met_get_step_met_index__get__z0___is_not_None', 'call_table_single_vertical_profiles_if_config_met_get_step_met_index__get__z0___is_not_None', 'call_table_loadConfigBody'], "bridge"),
+    kernel_groups=["Tables"],
+    partial_clauses=["PyYAML itself (yaml.safe_load) is trusted; YAML == dict is decided by the oracle and the extracted body of load_config"],
+    assumptions=["an empty output_levels list falls through to full_output / the default level (Python truthiness) — implemented behaviour, stated"])
